@@ -33,7 +33,7 @@ CONSTANTS Task, FilesFile, ResultsFile, N1      \* N1: size of the home LAN (add
 VARIABLE c                                      \* the case under evaluation
 
 Files   == ndJsonDeserialize(FilesFile)       \* [id, lines: <<[tag, j, n]>>, leases: <<[k, mac, ip]>>]
-Results == IF Task = "judge" THEN ndJsonDeserialize(ResultsFile) ELSE <<>>
+Results == IF Task \in {"judge", "crash"} THEN ndJsonDeserialize(ResultsFile) ELSE <<>>
 
 Parts  == {"bol", "key", "value", "eol"}       \* where inside a line a prefix ends / a byte is substituted
 InHome(a) == a >= 0 /\ a < N1
@@ -166,8 +166,24 @@ Conforms(r) ==
 -----------------------------------------------------------------------------
 (* one-step specifications: every case is an initial state, the invariant prints / judges it *)
 
+-----------------------------------------------------------------------------
+(* Task "crash": the rewrite of the lease file after an ACK is interrupted after k bytes for real (the driver lowers
+   RLIMIT_FSIZE to k for that one packet), over the previous version of the file. Whatever the implementation leaves
+   behind -- a prefix of the new content when the file is truncated first, a splice new[..k] ++ old[k+1..] when it is
+   overwritten in place -- is loaded by a new handler.  r: [hist, k, size, old, panic, hang, acked, table, ever]
+   ever = every (client id, MAC, address) acknowledged in the history, the interrupted step included. *)
+EverSet(r) == {[k |-> r.ever[i].k, mac |-> r.ever[i].mac, ip |-> r.ever[i].ip] : i \in 1..Len(r.ever)}
+\* every binding loaded after the interrupted rewrite was acknowledged at some time, lies in the home subnet, has an id
+C18_CrashOnlyAcked(r) == \A i \in 1..Len(r.table) :
+                            /\ [k |-> r.table[i].k, mac |-> r.table[i].mac, ip |-> r.table[i].ip] \in EverSet(r)
+                            /\ InHome(r.table[i].ip) /\ r.table[i].k # "cid:\"\"" /\ r.table[i].st = "allocated"
+CrashGuards(r) == IF r.panic \/ r.hang THEN {"C18_NoCrash"}
+                  ELSE IF C18_CrashOnlyAcked(r) THEN {} ELSE {"C18_CrashOnlyAcked"}
+\* mechanism: WriteFile truncates, then writes: the file left behind is the first min(k, new size) bytes of the new content
+CrashConforms(r) == r.panic \/ r.hang \/ r.size <= r.k
+
 PlanCases == UNION {Cases(f) : f \in 1..Len(Files)}
-Init == IF Task = "plan" THEN c \in PlanCases ELSE c \in 1..Len(Results)
+Init == IF Task = "plan" THEN c \in PlanCases ELSE c \in 1..Len(Results)       \* "judge" and "crash": one state per outcome
 Next == UNCHANGED c
 Spec == Init /\ [][Next]_c
 
@@ -181,4 +197,10 @@ Judge == LET r == Results[c]
              d == ~Conforms(r)
          IN (g # {} \/ d) => PrintT(ToJson([n |-> c, guards |-> g, drift |-> d, fault |-> r.fault, part |-> r.part,
                                             tag |-> Tag(r), j |-> LeaseOf(r)]))
+
+\* Task "crash": print the outcomes that fail a guard or are not a prefix write (always TRUE)
+JudgeCrash == LET r == Results[c]
+                  g == CrashGuards(r)
+                  d == ~CrashConforms(r)
+              IN (g # {} \/ d) => PrintT(ToJson([n |-> c, guards |-> g, drift |-> d, hist |-> r.hist, k |-> r.k]))
 =============================================================================
